@@ -2615,6 +2615,9 @@ def arg_val(target, arg, scope):
     """
     mode = scope[MIN_MODE]
     scope[MIN_MODE] = _ArgValuator().mode
-    result = scope[glom](target, arg, scope)
-    scope[MIN_MODE] = mode
-    return result
+    try:
+        # (the scope lives on when the failure is swallowed, e.g. for a
+        # child dropped below a wildcard: the next step chains onto it)
+        return scope[glom](target, arg, scope)
+    finally:
+        scope[MIN_MODE] = mode
